@@ -302,6 +302,10 @@ func c03Scenario(c *fw.Ctx, s int) {
 				c.Violation("retransmitted-with-new-identifier", fmt.Sprintf("scenario %d: copies of %s carry identifiers %v", s, m.tag, ids), wit(nil))
 				return
 			}
+			if m.stage != 2 && poolHas(n, m.id) {
+				c.Violation("identifier-freed-while-in-flight", fmt.Sprintf("scenario %d: %s (id %d) is still awaiting %s, yet its identifier is back in the pool's free list", s, m.tag, m.id, map[int]string{0: "its first acknowledgement", 1: "PUBCOMP"}[m.stage]), wit(map[string]interface{}{"pool": fmt.Sprint(wasp.VerifPoolFree(wasp.VerifWriterPool(n.Writer)))}))
+				return
+			}
 			switch m.stage {
 			case 0:
 				m.sweepsStage++
